@@ -31,8 +31,8 @@ type node struct {
 }
 
 var (
-	i64T    = reflect.TypeOf(int64(0))
-	nodeT   = reflect.TypeOf(node{})
+	i64T          = reflect.TypeOf(int64(0))
+	nodeT         = reflect.TypeOf(node{})
 	anchor  int64 = 0x1357
 	longStr       = []byte(strings.Repeat("L", 300))
 )
@@ -96,18 +96,18 @@ type liveStr struct {
 
 // mbank is the model of one physical bank.
 type mbank struct {
-	id      int
-	bank    *avro.ResourceBank
-	open    bool
-	allocs  []liveAlloc
-	strs    []liveStr
-	nInt    int
-	nNode   int
-	hiInt   int
-	hiNode  int
-	sLen    int
-	hiS     int
-	isRB    bool
+	id     int
+	bank   *avro.ResourceBank
+	open   bool
+	allocs []liveAlloc
+	strs   []liveStr
+	nInt   int
+	nNode  int
+	hiInt  int
+	hiNode int
+	sLen   int
+	hiS    int
+	isRB   bool
 	// trail: run-length-encoded sequence of operation kinds applied to this physical bank (runs capped at 3),
 	// part of the canonical state so that states are merged only when they differ in the length of long runs
 	trail []byte
@@ -582,6 +582,8 @@ func recDatums(order int) []ref.Datum {
 	return []ref.Datum{full(0), full(1), empty, full(3)}
 }
 
+var errGiveUp = fmt.Errorf("caller gives up the read")
+
 type retained struct {
 	shallow reflect.Value // *(*Rec)(val): what an application keeps
 	deep    reflect.Value
@@ -589,7 +591,7 @@ type retained struct {
 	open    bool
 }
 
-func runE2(c *fw.Ctx, codec string, comp []int, mode int, poolBound int, order int, enc int) {
+func runE2(c *fw.Ctx, codec string, comp []int, mode int, poolBound int, order int, enc int, prelude bool, recycle bool) {
 	ds := recDatums(order)
 	sc := filedrv.SchemaCase{Name: "Rec", Schema: recSchema, Type: reflect.TypeOf(Rec{})}
 	// enc: how the (reference) writer lays out arrays and maps — one plain block; size-prefixed blocks; one
@@ -597,6 +599,12 @@ func runE2(c *fw.Ctx, codec string, comp []int, mode int, poolBound int, order i
 	pol := []func(string, int) int{nil, filedrv.SizedBlocks, filedrv.SizedItemBlocks}[enc]
 	f := filedrv.BuildEnc(sc, codec, comp, ds, [16]byte{0xde, 0xad, 0xbe, 0xef, 0x10, 0x32, 0x54, 0x76, 0x98, 0xba, 0xdc, 0xfe, 0x01, 0x23, 0x45, 0x67}, pol)
 	f.Name += fmt.Sprintf("/order%d/collections-%s", order, []string{"plain", "sized-blocks", "sized-block-per-item"}[enc])
+	if prelude {
+		f.Name += "/after-an-abandoned-read"
+	}
+	if recycle {
+		f.Name += "/pool-recycles-by-default"
+	}
 	locus := "file|" + codec
 	var execs, points int64
 	obs := map[string]bool{}
@@ -604,7 +612,20 @@ func runE2(c *fw.Ctx, codec string, comp []int, mode int, poolBound int, order i
 	st := explore.RunUntil(poolBound, 150000, func(ch *explore.Chooser) {
 		c.Begin(locus, f.Name)
 		zzvsync.ResetPools()
-		zzvsync.SetPoolChooser(func(label string, n int) int { return ch.Choose(label, n) })
+		zzvsync.SetPoolChooser(func(label string, n int) int {
+			a := ch.Choose(label, n)
+			if recycle && n > 1 {
+				// the deviation-free answer is the most recently pooled bank (what a warm sync.Pool gives); a fresh
+				// bank is the first alternative
+				switch a {
+				case 0:
+					a = 1
+				case 1:
+					a = 0
+				}
+			}
+			return a
+		})
 		defer zzvsync.SetPoolChooser(nil)
 		var kept []*retained
 		var fail string
@@ -624,6 +645,22 @@ func runE2(c *fw.Ctx, codec string, comp []int, mode int, poolBound int, order i
 		var pan interface{}
 		var site string
 		var err error
+		if prelude {
+			// an earlier read of the same file that its callback gave up at the first record: it closed the bank it
+			// was given (its to close) and returned an error. Whatever the reader does on that path, the banks
+			// of the read that follows belong to one record each.
+			func() {
+				defer func() {
+					if r := recover(); r != nil {
+						pan, site = r, fw.PanicSite(3)
+					}
+				}()
+				avro.ReadFile(&filedrv.Reader{Data: f.Data, Mode: mode}, Rec{}, func(val unsafe.Pointer, rb *avro.ResourceBank) error {
+					rb.Close()
+					return errGiveUp
+				})
+			}()
+		}
 		func() {
 			defer func() {
 				if r := recover(); r != nil {
@@ -827,14 +864,20 @@ func tasks(tier string) []task {
 			for mode := 0; mode < 2; mode++ {
 				for order := 0; order < 3; order++ {
 					codec, comp, mode, order := codec, comp, mode, order
-					ts = append(ts, task{fmt.Sprintf("file %s %v %s order %d", codec, comp, filedrv.ModeName(mode), order), func(c *fw.Ctx) { runE2(c, codec, comp, mode, poolBound, order, 0) }})
+					ts = append(ts, task{fmt.Sprintf("file %s %v %s order %d", codec, comp, filedrv.ModeName(mode), order), func(c *fw.Ctx) { runE2(c, codec, comp, mode, poolBound, order, 0, false, false) }})
+					if mode == 0 && order != 1 {
+						ts = append(ts, task{fmt.Sprintf("file %s %v order %d pool recycles by default", codec, comp, order), func(c *fw.Ctx) { runE2(c, codec, comp, mode, poolBound, order, 0, false, true) }})
+					}
+					if mode == 0 && order == 0 {
+						ts = append(ts, task{fmt.Sprintf("file %s %v after an abandoned read", codec, comp), func(c *fw.Ctx) { runE2(c, codec, comp, mode, poolBound, order, 0, true, true) }})
+					}
 					if mode == 0 && (tier == "thorough" || order != 1) {
 						enc := 1 + (len(ts)+order)%2
 						if tier == "thorough" {
-							ts = append(ts, task{fmt.Sprintf("file %s %v order %d sized blocks", codec, comp, order), func(c *fw.Ctx) { runE2(c, codec, comp, mode, poolBound, order, 1) }})
+							ts = append(ts, task{fmt.Sprintf("file %s %v order %d sized blocks", codec, comp, order), func(c *fw.Ctx) { runE2(c, codec, comp, mode, poolBound, order, 1, false, false) }})
 							enc = 2
 						}
-						ts = append(ts, task{fmt.Sprintf("file %s %v order %d collections layout %d", codec, comp, order, enc), func(c *fw.Ctx) { runE2(c, codec, comp, mode, poolBound, order, enc) }})
+						ts = append(ts, task{fmt.Sprintf("file %s %v order %d collections layout %d", codec, comp, order, enc), func(c *fw.Ctx) { runE2(c, codec, comp, mode, poolBound, order, enc, false, false) }})
 					}
 				}
 			}
@@ -857,7 +900,7 @@ func init() {
 			if tier == "thorough" {
 				depth, banks, pb = 7, 3, 3
 			}
-			return fmt.Sprintf("built with the sync→zzvsync overlay so that sync.Pool recycling is an explored choice. (E1) explicit-state BFS over sequences (depth %d) of real ResourceBank/ReadBuf operations {alloc(int64), alloc(struct with pointer and string), 17×alloc (arena growth), ToString/NextAsString of 2 and 300 bytes (string store regrowth), Close(bank i), ExtractResourceBank with Pool.Get answer ∈ {new, each of the 2 most recently pooled banks}, recycle (the ReadBuf's bank goes through Close and the pool and comes back)} over the ReadBuf's bank and <=%d extracted banks; successor = replay on a fresh world + one operation; canonical state = per physical bank (role, fill levels, high-water classes) and pool order; shadow-heap model: after EVERY step a new allocation must be all-zero and disjoint (address ranges) from every live allocation and string of every open bank, and every live allocation and string must still hold its pattern. (E2) ReadFile over 4-record files (strings, bytes, slices, maps of strings / longs / records, pointers to long and to a record — map values and pointer targets of the same types — a **long and a *map; the spare capacity of every delivered []byte is overwritten by the callback (as an append would) and a collection runs in every 40th execution (clobberfree); an all-empty record as third or as second of the four; or four records that repeat one string in every string position) × 3 codecs × 4 block partitions × 2 reader modes — and again with the file's arrays and maps laid out in byte-size-prefixed blocks / one size-prefixed block per item (forms the library's own writer never produces) — with the callback's retention policy (keep / close own bank / close the bank of any earlier open record) explored exhaustively and Pool.Get answers with <=%d deviations: every retained shallow copy whose bank is open must equal the deep copy taken at delivery, at every later callback, at the end, and again after a second ReadFile (whose banks are closed at once) has run; (E3) what delivered time.Time values SHOW (zone name, offset, String, Format) for RFC 3339 strings with five unusual offsets in five blocks must be unchanged after the rest of the file has been read; distinct_nontrivial = distinct histories / choice vectors checked", depth, banks, pb)
+			return fmt.Sprintf("built with the sync→zzvsync overlay so that sync.Pool recycling is an explored choice. (E1) explicit-state BFS over sequences (depth %d) of real ResourceBank/ReadBuf operations {alloc(int64), alloc(struct with pointer and string), 17×alloc (arena growth), ToString/NextAsString of 2 and 300 bytes (string store regrowth), Close(bank i), ExtractResourceBank with Pool.Get answer ∈ {new, each of the 2 most recently pooled banks}, recycle (the ReadBuf's bank goes through Close and the pool and comes back)} over the ReadBuf's bank and <=%d extracted banks; successor = replay on a fresh world + one operation; canonical state = per physical bank (role, fill levels, high-water classes) and pool order; shadow-heap model: after EVERY step a new allocation must be all-zero and disjoint (address ranges) from every live allocation and string of every open bank, and every live allocation and string must still hold its pattern. (E2) ReadFile over 4-record files (strings, bytes, slices, maps of strings / longs / records, pointers to long and to a record — map values and pointer targets of the same types — a **long and a *map; the spare capacity of every delivered []byte is overwritten by the callback (as an append would) and a collection runs in every 40th execution (clobberfree); an all-empty record as third or as second of the four; or four records that repeat one string in every string position) × 3 codecs × 4 block partitions × 2 reader modes — and again with the file's arrays and maps laid out in byte-size-prefixed blocks / one size-prefixed block per item (forms the library's own writer never produces), and again after an earlier read of the file that its callback gave up at the first record (bank closed by the callback, error returned) — with the callback's retention policy (keep / close own bank / close the bank of any earlier open record) explored exhaustively and Pool.Get answers with <=%d deviations — from 'a fresh bank every time' and, in further runs, from 'the most recently pooled bank every time' (a cold and a warm pool) — every retained shallow copy whose bank is open must equal the deep copy taken at delivery, at every later callback, at the end, and again after a second ReadFile (whose banks are closed at once) has run; (E3) what delivered time.Time values SHOW (zone name, offset, String, Format) for RFC 3339 strings with five unusual offsets in five blocks must be unchanged after the rest of the file has been read; distinct_nontrivial = distinct histories / choice vectors checked", depth, banks, pb)
 		},
 		Assumptions: []string{
 			"double Close of one bank and use after Close are API misuse and excluded from the alphabet",
